@@ -318,3 +318,85 @@ func verifAuditKeysNative(rec []byte) string {
 	}
 	return keys
 }
+
+// ---------- a sink that fails at one chosen record -- possibly after taking part of it -- and then works again ----------
+
+// verifFlakySink fails one chosen Write. The failing Write may be short: a non-empty proper prefix of the record has
+// reached the file (a disk that fills up mid-record). The sink remembers, for every later complete Write, whether it
+// began at a line boundary: only then do its bytes form a line of their own in the file.
+type verifFlakySink struct {
+	failAt   int
+	n        int
+	tailOpen bool // the file's last byte is not a newline
+	writes   [][]byte
+	ownLine  []bool
+	syncedTo int
+}
+
+func (s *verifFlakySink) Write(p []byte) (int, error) {
+	idx := s.n
+	s.n++
+	if idx == s.failAt {
+		if nondetBool("sink.write.short") {
+			frag := fragmentOf(p)
+			s.tailOpen = true
+			ghostLog("sink.write.short")
+			return len(frag), verifErrInjected
+		}
+		ghostLog("sink.write.failed")
+		return 0, verifErrInjected
+	}
+	s.writes = append(s.writes, append([]byte(nil), p...))
+	s.ownLine = append(s.ownLine, !s.tailOpen)
+	s.tailOpen = !endsWithNewline(p)
+	return len(p), nil
+}
+
+func (s *verifFlakySink) Sync() error { s.syncedTo = len(s.writes); return nil }
+
+// Two requests one after the other on one database; the sink fails while the first one's record is written.
+// The first request fails closed. The second one may be refused as well (fail-closed is always allowed), but if it is
+// served -- a value returned or a change made -- the file holds its record as one complete line of its own, synced.
+func verifHarnessC06SinkRecovers() {
+	verifAllowTable = nil
+	k := verifSymKV(param("secrets"), param("versions"), "")
+	assume(verifKVInv(k))
+	assume(verifKVBound(k))
+	sink := &verifFlakySink{failAt: 0}
+	d := &DB{kv: k, auditLog: audit.New(sink)}
+	caller := verifCaller()
+	name := nondetString("name")
+	ver := api.SecretVersion(nondetU32("version"))
+	val := nondetSeq("val")
+
+	op1 := opGet
+	if nondetBool("first.is.put") {
+		op1 = opPut
+	}
+	pre := snapshot(k.secrets)
+	preGen := k.gen
+	res1 := verifCallOp(d, op1, caller, name, ver, val)
+	a1 := verifAllowUF(caller.Permissions, res1.required, name)
+	if and(res1.wellForm, sink.n > 0) {
+		assert("first-request-fails-closed", and(res1.err != nil, !res1.disclosed(), deepEq(k.secrets, pre), k.gen == preGen))
+	}
+	_ = a1
+
+	op2 := opGet
+	if nondetBool("second.is.put") {
+		op2 = opPut
+	}
+	name2 := nondetString("name2")
+	pre2 := snapshot(k.secrets)
+	preGen2 := k.gen
+	res2 := verifCallOp(d, op2, caller, name2, ver, val)
+	served := or(res2.disclosed(), not(deepEq(k.secrets, pre2)), k.gen != preGen2)
+	has := false
+	for i, w := range sink.writes {
+		if and(sink.ownLine[i], i < sink.syncedTo, verifEntryMatches(w, caller, res2.required, name2, ver, false, true)) {
+			has = true
+		}
+	}
+	assert("a-served-request-has-a-complete-line-of-its-own-in-the-log", implies(served, has))
+	reach("end")
+}
